@@ -622,4 +622,60 @@ def machine : Machine where
     | none => ((cfg, rd, s), [])
   now := fun (_, _, s) => s.now
 
+/-! ## a timeout function that reads mutable state: the knob
+
+A `timeout_fn` is an arbitrary closure: it may read anything — a budget knob an operator turns at run time, a
+counter — not only the request.  The harness's closure answers the request's own `timeout=`, else the current value
+of a knob (`manual knob v=<ms|max>`; `v=-`: unset), else the default it was built with.  `call()` asks the timeout
+source (lib.rs:176): what counts is the knob's value WHEN THE CALL IS MADE (`arrive`), whatever happens to the knob
+before the response future is first polled, and in whatever order the response futures are first polled.  So a
+request made under knob `k` that carries no timeout of its own IS the request carrying `k` (`withKnob`), and turning
+the knob is no operation of the service at all (`stepK`). -/
+
+/-- what `timeout_fn` sees for a request made while the knob is `knob`: the request's own timeout, else the knob -/
+def withKnob (knob own : Option Tmo) : Option Tmo :=
+  match own with
+  | some t => some t
+  | none => knob
+
+inductive KOp
+  | knob (v : Option Tmo)       -- `manual knob v=…`
+  | op (o : Op)
+deriving Repr, DecidableEq
+
+/-- the operation the service sees for a requested one while the knob is `knob` -/
+def knobOp (knob : Option Tmo) : Op → Op
+  | .arrive c own sc => .arrive c (withKnob knob own) sc
+  | o => o
+
+def stepK (cfg : Cfg) (p : Option Tmo × State) : KOp → Option Tmo × State
+  | .knob v => (v, p.2)
+  | .op o => (p.1, stepS cfg p.2 (knobOp p.1 o))
+
+def runK (cfg : Cfg) (ops : List KOp) : Option Tmo × State := ops.foldl (stepK cfg) (none, init)
+
+/-- line level: an `arrive` / `probe source` line without a `timeout=` word, under knob `k`, is the line with
+`timeout=<k>` -/
+def knobWords (knob : Option Tmo) (ws : List String) : List String :=
+  match knob with
+  | none => ws
+  | some k =>
+      let rest := match ws with
+        | "arrive" :: _ :: rest => some rest
+        | "probe" :: "source" :: rest => some rest
+        | _ => none
+      match rest with
+      | some r => if ((parseKv r).get "timeout").isSome then ws else ws ++ ["timeout=" ++ k.render]
+      | none => ws
+
+/-- `machine` under a `timeout_fn` that reads the knob -/
+def machineK : Machine where
+  σ := machine.σ × Option Tmo
+  init kv := (machine.init kv, none)
+  step := fun (m, knob) ws =>
+    match ws with
+    | "manual" :: "knob" :: rest => ((m, ((parseKv rest).get "v").bind parseTmo), [])
+    | _ => let r := machine.step m (knobWords knob ws); ((r.1, knob), r.2)
+  now := fun (m, _) => machine.now m
+
 end TR.TimeLimiter
